@@ -50,6 +50,7 @@ type eparams struct {
 	scales      [][2]int
 	hot         []int // key groups whose subject the histories touch
 	second      bool  // optionally rescale a second time
+	noTimers    bool  // histories of puts and deletes only (deeper: old operators with compacted levels)
 }
 
 func endToEnd(k *report.Check) {
@@ -59,6 +60,11 @@ func endToEnd(k *report.Check) {
 	}
 	p := eparams{depth: k.Pick(3, 4), post: 1, scales: scales, hot: []int{1, 2}}
 	k.ExploreProc(fmt.Sprintf("stores/d=%d+%d", p.depth, p.post), mc.Config{Deadline: k.Within(0.5)}, p, e2eBody)
+	// long histories before a scale-in: one old operator's tables have been compacted into the lower
+	// levels while the other's sit in level 0 (or only in its memtable): the composite level list
+	// of the new operator then holds high sequence numbers beneath low ones
+	pd := eparams{depth: k.Pick(6, 7), post: 1, scales: [][2]int{{2, 1}, {3, 2}}[:k.Pick(1, 2)], hot: []int{1, 2}, noTimers: true}
+	k.ExploreProc(fmt.Sprintf("stores-long-histories/d=%d+%d", pd.depth, pd.post), mc.Config{Deadline: k.Within(0.5)}, pd, e2eBody)
 	p2 := eparams{depth: k.Pick(2, 3), post: 1, scales: [][2]int{{1, 2}, {2, 3}, {1, 3}}[:k.Pick(2, 3)], hot: []int{1, 2}, second: true}
 	k.ExploreProc(fmt.Sprintf("stores-two-rescales/d=%d+%d", p2.depth, p2.post), mc.Config{}, p2, e2eBody)
 }
@@ -192,6 +198,14 @@ func e2eBody(c *mc.Ctx) {
 		if err := s.st.ApplyMutations([]byte(sub), []*handlerpb.StateMutationNamespace{{Namespace: "n", Mutations: []*handlerpb.StateMutation{mut}}}); err != nil {
 			c.Failf("ApplyMutations: %v", err)
 		}
+		if p.noTimers {
+			// ballast under the same key group and a schema byte of its own (invisible to the state
+			// and timer stores): the memtable fills up, so that every mutation ends in a table and
+			// the tables are compacted down the levels
+			pad := []byte{byte(kg >> 8), byte(kg), 0x7f}
+			pad = append(pad, fmt.Sprintf("pad-%d", step)...)
+			s.db.Put(pad, []byte(strings.Repeat("x", 40)))
+		}
 		if err := s.db.WaitOnTasks(); err != nil {
 			c.Failf("background task failed: %v", err)
 		}
@@ -203,6 +217,9 @@ func e2eBody(c *mc.Ctx) {
 		return ""
 	}
 	nOps := 3*len(p.hot) + 2
+	if p.noTimers {
+		nOps = 2 * len(p.hot)
+	}
 	for step := 0; step < p.depth; step++ {
 		op := c.Choose(1 + nOps)
 		if op == 0 {
@@ -218,6 +235,10 @@ func e2eBody(c *mc.Ctx) {
 		m := len(prev)
 		handles := make([]recovery.CheckpointHandle, m)
 		for i, s := range prev {
+			if c.Replay {
+				sealed, levels := dkvh.Layout(s.db)
+				c.Op("    operator %d before its checkpoint: %d sealed memtables, tables per level %v", i, sealed, levels)
+			}
 			h, err := s.db.Checkpoint(uint64(gen))()
 			if err != nil {
 				c.Failf("checkpoint %d of operator %d: %v", gen, i, err)
